@@ -58,7 +58,10 @@ def instances(tier, seed):
                  {'fam': 'A1', 'K': 2, 'C': 2}, {'fam': 'T2', 'K0': 3, 'K1': 2}, {'fam': 'K1', 'origins': ['s', 's']},
                  {'fam': 'D2', 'C': 2}, {'fam': 'L1'}, {'fam': 'R2'},
                  {'fam': 'T1', 'K': 2, 'tail': 'relu'}, {'fam': 'T1', 'K': 2, 'tail': 'add'},
-                 {'fam': 'O1', 'out': 'dict'}, {'fam': 'O1', 'out': 'nested'}, {'fam': 'O1', 'out': 'tuple'}, {'fam': 'R4'}]
+                 {'fam': 'O1', 'out': 'dict'}, {'fam': 'O1', 'out': 'nested'}, {'fam': 'O1', 'out': 'tuple'}, {'fam': 'R4'},
+                 # masks that are no longer trained (another phase of the search) still decide the exported sizes
+                 {'fam': 'T1', 'K': 3, 'd0': 1, 's': 1, 'C': 2, 'after': [['train_rf', False], ['train_dilation', False]]},
+                 {'fam': 'T1', 'K': 5, 'd0': 1, 's': 1, 'C': 2, 'after': [['train_net_only', 'call']]}, {'fam': 'D2', 'C': 2, 'after': [['train_features', False]]}]
     else:
         for K in range(1, 13):
             for d0 in (1, 2, 3):
